@@ -56,6 +56,9 @@ def generate(ctx):
             c["pickle"] = True
         if rng.random() < 0.35:
             c["rerun"] = {"oracle0": [rng.randint(0, 7) for _ in range(len(g))], "bump": rng.randint(1, 5)}
+            if rng.random() < 0.5:
+                unused = [i for i in range(len(g)) if not any(inp[0] == "n" and i in inp[1] for nd in g for inp in nd["ins"])]
+                c["rerun"]["edit"] = [rng.choice(["swap", "swap", "reconnect"]), rng.choice(unused)]
         out.append(c)
     # a few real thread-pool runs with a slow checkpoint back end on the executor children (regression for S20)
     for j in range(ctx.n(3, 25)):
@@ -344,6 +347,31 @@ def run_impl(case):
             for j, inp in enumerate(nd["ins"]):
                 if inp[0] == "c":
                     c.inputs["x" if nd.get("macro") else nodes.ARG[j]].value = inp[1] + rr["bump"]
+        # optional edit between the runs that ends in the very same graph: a child nobody consumes is swapped by hand
+        # for an identical fresh node under the same label, or is disconnected and connected again
+        ed = rr.get("edit")
+        used = {u for nd in case["nodes"] for inp in nd["ins"] if inp[0] == "n" for u in inp[1]}
+        if ed and ed[1] < len(children) and ed[1] not in used and not case["nodes"][ed[1]].get("macro"):
+            i = ed[1]
+            nd = eff(case)[i]
+            if ed[0] == "swap":
+                wf.remove_child(children[i])
+                kw = {"tag": i, "k": nd["k"]}
+                for j, inp in enumerate(nd["ins"]):
+                    if inp[0] == "c":
+                        kw[nodes.ARG[j]] = inp[1]
+                new = nodes.LIN[len(nd["ins"])](label=f"n{i}", **kw)
+                new.use_cache = False
+                wf.add_child(new)
+                children[i] = new
+                if nd["ex"]:
+                    new.executor = ex
+            else:
+                children[i].disconnect()
+            for j, inp in enumerate(nd["ins"]):
+                if inp[0] == "n":
+                    for u in reversed(inp[1]):
+                        children[i].inputs[nodes.ARG[j]].connect(children[u].outputs[_out(children[u])])
         nodes.reset()
     with nodes.poll_hook(make_hook(children, ex, case["oracle"])), nodes.event_log():
         try:
@@ -389,6 +417,10 @@ def model_term(case):
                 cl(o if o == "ORead" else (f"OW {cn(o[1])}" if o[0] == "OW" else f"OBody {cn(o[1])} {pairs(o[2])}")
                    for o in ops))
     if case.get("fam") == "thread" or "_order" not in case:
+        return None
+    if (case.get("rerun") or {}).get("edit"):
+        # a swapped / re-connected child is wired anew, which changes the ORDER in which equally ready children are
+        # delivered (one of the event sequences the theorems quantify over): judged by the oracle, not the FIFO refinement
         return None
     return (f"g_obs {graph_coq(case)} {cl(cn(u) for u in case['_order'])} "
             f"{cl(cn(u) for u in case['oracle'])}")
